@@ -1,5 +1,6 @@
 from __future__ import annotations
 
+import codecs
 import os
 from collections.abc import Mapping
 from functools import partial
@@ -36,6 +37,15 @@ from dask.delayed import delayed
 from dask.utils import asciitable, parse_bytes
 
 
+_BOMS = (
+    codecs.BOM_UTF8,
+    codecs.BOM_UTF16_LE,
+    codecs.BOM_UTF16_BE,
+    codecs.BOM_UTF32_LE,
+    codecs.BOM_UTF32_BE,
+)
+
+
 def pandas_read_text(
     reader,
     b,
@@ -46,6 +56,7 @@ def pandas_read_text(
     write_header=True,
     enforce=False,
     path=None,
+    bom=b"",
 ):
     """Convert a block of bytes to a Pandas DataFrame
 
@@ -63,12 +74,18 @@ def pandas_read_text(
         dtypes to assign to columns
     path : tuple
         A tuple containing path column name, path to file, and an ordered list of paths.
+    bom : bytestring
+        The byte order mark the file starts with, if the encoding needs one
 
     See Also
     --------
     dask.dataframe.csv.read_pandas_from_bytes
     """
     bio = BytesIO()
+    if bom and not (header if write_header else b).startswith(bom):
+        # a block from the middle of a file does not start with the byte
+        # order mark, and neither does a header line that is not the first line
+        bio.write(bom)
     if write_header:
         bio.write(header)
     bio.write(b)
@@ -196,6 +213,7 @@ def text_blocks_to_pandas(
     path=None,
     blocksize=None,
     urlpath=None,
+    bom=b"",
 ):
     """Convert blocks of bytes to a dask.dataframe
 
@@ -295,6 +313,7 @@ def text_blocks_to_pandas(
             enforce=enforce,
             kwargs=kwargs,
             blocksize=blocksize,
+            bom=bom,
         ),
         blocks,
         parts,
@@ -318,6 +337,7 @@ def _read_csv(
     enforce,
     kwargs,
     blocksize,
+    bom=b"",
 ):
     # Part will be a 3-element tuple
     path, is_first, is_last = part
@@ -369,6 +389,7 @@ def _read_csv(
         write_header,
         enforce,
         path_info,
+        bom,
     )
     if project_after_read:
         return df[columns]
@@ -457,6 +478,7 @@ def read_pandas(
             b_lineterminator = b_lineterminator[len(empty_blob) :]
     else:
         b_lineterminator = lineterminator.encode()
+        empty_blob = b""
     if include_path_column and isinstance(include_path_column, bool):
         include_path_column = "path"
     if "index" in kwargs or (
@@ -594,6 +616,11 @@ def read_pandas(
         )
 
     header = b"" if header is None else parts[firstrow] + b_lineterminator
+    # the byte order mark that the files start with (decoders such as utf-16
+    # need it at the start of every block that is parsed on its own)
+    bom = b_sample[: len(empty_blob)] if empty_blob else b""
+    if bom not in _BOMS:
+        bom = b""
 
     # Use sample to infer dtypes and check for presence of include_path_column
     head_kwargs = kwargs.copy()
@@ -647,6 +674,7 @@ def read_pandas(
         path=path,
         blocksize=blocksize,
         urlpath=urlpath,
+        bom=bom,
     )
 
 
